@@ -139,3 +139,41 @@ def check_data_entry(ix, rep, f, kind, rule='R-TRUTHY'):
     else:
         rep.ok(rule, f.module.rel, f.qual, slot, 'no value of the data set is tested by truthiness', f.node.lineno)
     return 1
+
+
+def check_exact_comparisons(ix, rep, prefixes=('rtamt/semantics/',), rule='R-TRUTHY'):
+    """robustness values are compared exactly.  `math.isclose(a, b)`, `abs(a - b) <= eps`, `round(a, k) == round(b, k)` treat two different values as
+    one: in the sample-merging code a step smaller than the tolerance disappears from the signal (1e9 -> 1e9+1 is a step of 1e-9 relative), in a
+    verdict a strict inequality becomes an equality.  Zero sites today; one instance per module scanned."""
+    n = 0
+    for mod in sorted(ix.modules.values(), key=lambda m: m.rel):
+        if not any(mod.rel.startswith(p) for p in prefixes) or ix.unimportable(mod):
+            continue
+        n += 1
+        bad = None
+        for x in ast.walk(mod.tree):
+            if isinstance(x, ast.Call):
+                nm = x.func.attr if isinstance(x.func, ast.Attribute) else (x.func.id if isinstance(x.func, ast.Name) else None)
+                if nm in ('isclose', 'allclose', 'approx'):
+                    bad = (x, '`%s`' % ast.unparse(x)[:50])
+            if isinstance(x, ast.Compare) and len(x.ops) == 1 and isinstance(x.ops[0], (ast.Lt, ast.LtE, ast.Gt, ast.GtE)):
+                l, r = x.left, x.comparators[0]
+                for a, b in ((l, r), (r, l)):
+                    if isinstance(a, ast.Call) and isinstance(a.func, ast.Name) and a.func.id == 'abs' and a.args and isinstance(a.args[0], ast.BinOp) \
+                            and isinstance(a.args[0].op, ast.Sub):
+                        txt = ast.unparse(b).lower()
+                        if 'eps' in txt or 'tol' in txt or (isinstance(b, ast.Constant) and isinstance(b.value, float) and 0 < abs(b.value) < 1e-3):
+                            bad = (x, 'the tolerance test `%s`' % ast.unparse(x)[:50])
+            if isinstance(x, ast.Compare) and len(x.ops) == 1 and isinstance(x.ops[0], (ast.Eq, ast.NotEq)):
+                if all(isinstance(s_, ast.Call) and isinstance(s_.func, ast.Name) and s_.func.id == 'round' for s_ in (x.left, x.comparators[0])):
+                    bad = (x, 'the rounded comparison `%s`' % ast.unparse(x)[:50])
+        if bad is not None:
+            owner = None
+            for fn in ast.walk(mod.tree):
+                if isinstance(fn, ast.FunctionDef) and any(y is bad[0] for y in ast.walk(fn)):
+                    owner = fn.name
+            rep.fail(rule, mod.rel, owner or '<module>', 'approximate-comparison', '%s compares values up to a tolerance: two different robustness values count as equal -- where samples are merged '
+                     'a small step vanishes from the signal, in a verdict `>` becomes `>=`' % bad[1], bad[0].lineno)
+        else:
+            rep.ok(rule, mod.rel, '<module>', 'exact-comparisons', 'no comparison up to a tolerance', 1)
+    return n
